@@ -1,5 +1,8 @@
 import LinOp.C20.ProofsToeplitz
 import LinOp.C20.ProofsPermQr
+import LinOp.C20.ProofsInterp
+import LinOp.C20.ProofsSparse
+import LinOp.C20.ProofsExtra
 /-!
 C20 — utility kernels equal their dense definitions.  Property theorems only (proofs in `LinOp/C20/Proofs*.lean`).
 
@@ -130,5 +133,162 @@ theorem pinverse_def {α : Type} [Field α] {m n : Type} [Fintype m] [Fintype n]
 theorem pinverse_fat {α : Type} [Field α] {m n : Type} [Fintype m] [Fintype n] [DecidableEq n]
     (A : Matrix m n α) (P : Matrix m n α) (h : IsMP A.transpose P) : IsMP A P.transpose :=
   _root_.LinOp.C20.pinverse_fat A P h
+
+
+/-! ### interpolation -/
+
+/-- `left_interp` (gather, multiply, sum over the coefficients) is `(W x)_r` for the dense interpolation matrix
+`W[r,c] = Σ_k [idx[r,k] = c] val[r,k]` — duplicate indices add. -/
+theorem left_interp_def {α : Type} [CommRing α] (n K : Nat) (idx : Nat → Nat → Nat) (val : Nat → Nat → α) (x : Nat → α) (r : Nat)
+    (h : ∀ k, k < K → idx r k < n) :
+    leftInterpCore K idx val x r = sumN n fun c => interpW K idx val r c * x c :=
+  _root_.LinOp.C20.left_interp_def n K idx val x r h
+
+/-- `left_t_interp` (scatter-add through the summing matrix and dsmm) is `(Wᵀ x)_o`; duplicates add. -/
+theorem left_t_interp_def {α : Type} [CommRing α] (D K : Nat) (idx : Nat → Nat → Nat) (val : Nat → Nat → α) (x : Nat → α) (o : Nat) :
+    leftTInterpCore D K idx val x o = sumN D fun d => interpW K idx val d o * x d :=
+  _root_.LinOp.C20.left_t_interp_def D K idx val x o
+
+/-! ### sparse tensors (entry lists; equal index tuples add) -/
+
+/-- the entry-list product `spmm` (contract of `torch.dsmm`) is densify-then-dense-matmul. -/
+theorem spmm_def {α : Type} [CommRing α] (ents : Ents α) (d : Nat → Nat → α) (i c ncols : Nat)
+    (h : ∀ e ∈ ents, e.1.length = 2 ∧ e.1.getD 1 0 < ncols) :
+    spmm ents d i c = sumN ncols fun j => densify ents [i, j] * d j c :=
+  _root_.LinOp.C20.spmm_def ents d i c ncols h
+
+theorem sparse_eye_def {α : Type} [CommRing α] (n i j : Nat) (hi : i < n) (hj : j < n) :
+    densify (sparseEye (α := α) n).ents [i, j] = if i = j then 1 else 0 :=
+  _root_.LinOp.C20.sparse_eye_def n i j hi hj
+
+/-- `make_sparse_from_indices_and_values`: batch index construction, zero dropping and the all-zero special case
+leave exactly one contribution `valf p` per flattened position `p`, at index (batch digits of p, idxf p, row of p). -/
+theorem make_sparse_def {α : Type} [CommRing α] [DecidableEq α] (bs : List Nat) (T K : Nat) (idxf : Nat → Nat) (valf : Nat → α)
+    (numRows : Nat) (bidx : List Nat) (i t : Nat) (hb : bidx.length = bs.length) :
+    densify (makeSparse bs T K idxf valf numRows).ents (bidx ++ [i, t]) =
+      sumN (prod bs * T * K) fun p =>
+        if (unflat (bs ++ [T, K]) p).take bs.length = bidx ∧ idxf p = i ∧ (p / K) % T = t then valf p else 0 :=
+  _root_.LinOp.C20.make_sparse_def bs T K idxf valf numRows bidx i t hb
+
+theorem make_sparse_shape {α : Type} [CommRing α] [DecidableEq α] (bs : List Nat) (T K : Nat) (idxf : Nat → Nat) (valf : Nat → α)
+    (numRows : Nat) : (makeSparse bs T K idxf valf numRows).shape = bs ++ [numRows, T] :=
+  _root_.LinOp.C20.make_sparse_shape bs T K idxf valf numRows
+
+/-- unbatched: `densify(make_sparse(idx, val))[i, t] = W[t, i]`. -/
+theorem make_sparse_unbatched {α : Type} [CommRing α] [DecidableEq α] (T K : Nat) (hK : 0 < K) (idx : Nat → Nat → Nat)
+    (val : Nat → Nat → α) (numRows i t : Nat) (ht : t < T) :
+    densify (makeSparse [] T K (fun p => idx (p / K) (p % K)) (fun p => val (p / K) (p % K)) numRows).ents [i, t]
+      = interpW K idx val t i :=
+  _root_.LinOp.C20.make_sparse_unbatched T K hK idx val numRows i t ht
+
+/-- row-major digits determine the flat position / round trip. -/
+theorem unflat_inj (shape : List Nat) (p q : Nat) (hp : p < prod shape) (hq : q < prod shape)
+    (h : unflat shape p = unflat shape q) : p = q :=
+  _root_.LinOp.C20.unflat_inj shape p q hp hq h
+
+theorem flat_unflat (shape : List Nat) (p : Nat) (hp : p < prod shape) : flat shape (unflat shape p) = p :=
+  _root_.LinOp.C20.flat_unflat shape p hp
+
+/-- `to_sparse(dense)` densifies back to `dense` at every position of the box (any rank, zeros dropped, all-zero case). -/
+theorem to_sparse_roundtrip {α : Type} [CommRing α] [DecidableEq α] (d : Tn α) (p : Nat) (hp : p < prod d.shape) :
+    densify (toSparse d).ents (unflat d.shape p) = d.get (unflat d.shape p) :=
+  _root_.LinOp.C20.to_sparse_roundtrip d _ p hp rfl
+    (fun q hq h => _root_.LinOp.C20.unflat_inj d.shape q p hq hp h)
+
+/-- `sparse_repeat`, one repeated dimension, with the offset `k * size` (after notes/C20_fix_2.diff): dense `repeat`. -/
+theorem sparse_repeat_def {α : Type} [AddCommMonoid α] (i rep : Nat) (s : Sp α) (idx : List Nat)
+    (hi : i < s.shape.length) (hlen : idx.length = s.shape.length)
+    (hents : ∀ e ∈ s.ents, e.1.length = s.shape.length ∧ e.1.getD i 0 < s.shape.getD i 0)
+    (hidx : idx.getD i 0 < rep * s.shape.getD i 0) :
+    densify (repeatDim true i rep s).ents idx = densify s.ents (idx.set i (idx.getD i 0 % s.shape.getD i 0)) :=
+  _root_.LinOp.C20.sparse_repeat_def i rep s idx hi hlen hents hidx
+
+/-- D28: the unchanged code (offset `k`) is wrong on a dimension of size 2 … -/
+theorem sparse_repeat_counterexample :
+    let s : Sp Int := ⟨[2, 2], [([0, 0], 1), ([1, 0], 2), ([1, 1], 3)]⟩
+    densify (sparseRepeat false s [2, 1]).ents [1, 0] = 3 ∧ densify (sparseRepeat true s [2, 1]).ents [1, 0] = 2
+      ∧ densify (sparseRepeat true s [2, 1]).ents [2, 0] = 1 ∧ densify (sparseRepeat false s [2, 1]).ents [2, 0] = 2 :=
+  _root_.LinOp.C20.sparse_repeat_counterexample
+
+/-- … and right whenever the repeated dimension has size 1 (the only way the library itself uses it, in `bdsmm`). -/
+theorem sparse_repeat_partial {α : Type} (i rep : Nat) (s : Sp α) (h : s.shape.getD i 0 = 1) :
+    repeatDim false i rep s = repeatDim true i rep s :=
+  _root_.LinOp.C20.sparse_repeat_partial i rep s h
+
+/-- `sparse_getitem`, integer at position `i`: the result at `ridx` is the operand at `ridx` with `z` inserted at `i`. -/
+theorem sparse_getitem_int_def {α : Type} [AddCommMonoid α] (i : Nat) (z : Nat) (s : Sp α) (ridx : List Nat)
+    (hi : i < s.shape.length) (hlen : ridx.length + 1 = s.shape.length)
+    (hents : ∀ e ∈ s.ents, e.1.length = s.shape.length) :
+    ∃ s', getitemStep i (.int (z : Int)) s = .ok s' ∧ s'.shape = s.shape.eraseIdx i ∧
+      densify s'.ents ridx = densify s.ents (ridx.insertIdx i z) :=
+  _root_.LinOp.C20.sparse_getitem_int_def i z s ridx hi hlen hents
+
+/-- `sparse_getitem`, slice (step 1, Python bound clamping) at position `i`. -/
+theorem sparse_getitem_slice_def {α : Type} [AddCommMonoid α] (i : Nat) (start stop : Option Int) (s : Sp α) (ridx : List Nat)
+    (hi : i < s.shape.length) (hlen : ridx.length = s.shape.length)
+    (hents : ∀ e ∈ s.ents, e.1.length = s.shape.length)
+    (hr : sliceBound (s.shape.getD i 0) start 0 + ridx.getD i 0 < sliceBound (s.shape.getD i 0) stop (s.shape.getD i 0)) :
+    ∃ s', getitemStep i (.slice start stop none) s = .ok s' ∧
+      s'.shape = s.shape.set i (sliceBound (s.shape.getD i 0) stop (s.shape.getD i 0) - sliceBound (s.shape.getD i 0) start 0) ∧
+      densify s'.ents ridx = densify s.ents (ridx.set i (ridx.getD i 0 + sliceBound (s.shape.getD i 0) start 0)) :=
+  _root_.LinOp.C20.sparse_getitem_slice_def i start stop s ridx hi hlen hents hr
+
+def spVal (e : Except String (Sum Int (Sp Int))) : Option Int :=
+  match e with
+  | .ok (.inl v) => some v
+  | _ => none
+
+/-- D31: a negative integer index selects nothing in the unchanged code (`0` instead of the last entry `2`). -/
+theorem sparse_getitem_negint_counterexample :
+    spVal (sparseGetitem false ⟨[3], [([1], 1), ([2], 2)]⟩ [.int (-1)]) = some 0 ∧
+    spVal (sparseGetitem true ⟨[3], [([1], 1), ([2], 2)]⟩ [.int (-1)]) = some 2 := by
+  decide
+
+/-- block-diagonal flattening of `bdsmm` (row += b·rows, col += b·cols, b the flat batch index): row `b·rows + i` of the
+2-D product sees exactly the entries of batch `b`, row `i`, against the rows `b·cols + j` of the flattened dense operand. -/
+theorem blockdiag_spmm {α : Type} [CommRing α] (bshape : List Nat) (numRows numCols : Nat) (ents : Ents α) (d2 : Nat → Nat → α)
+    (fb i c : Nat) (hi : i < numRows)
+    (hents : ∀ e ∈ ents, e.1.getD bshape.length 0 < numRows ∧ e.1.getD (bshape.length + 1) 0 < numCols) :
+    spmm (blockDiagEnts bshape numRows numCols ents) d2 (fb * numRows + i) c =
+      spmm ((ents.filter fun e => flat bshape (e.1.take bshape.length) = fb ∧ e.1.getD bshape.length 0 = i)
+              |>.map fun e => ([e.1.getD bshape.length 0, e.1.getD (bshape.length + 1) 0], e.2))
+           (fun j c => d2 (fb * numCols + j) c) i c :=
+  _root_.LinOp.C20.blockdiag_spmm bshape numRows numCols ents d2 fb i c hi hents
+
+/-- `bdsmm`, unbatched branch: `S D` with `S = densify(sparse)`. -/
+theorem bdsmm_2d_def {α : Type} [CommRing α] (fixed : Bool) (s : Sp α) (d : Tn α) (m n p : Nat)
+    (hs : s.shape = [m, n]) (hd : d.shape = [n, p])
+    (hents : ∀ e ∈ s.ents, e.1.length = 2 ∧ e.1.getD 1 0 < n) :
+    ∃ t, bdsmm fixed s d = .ok t ∧ t.shape = [m, p] ∧
+      ∀ i c, t.get [i, c] = sumN n fun j => densify s.ents [i, j] * d.get [j, c] := by
+  refine ⟨⟨[m, p], fun o => spmm s.ents (fun j c => d.get [j, c]) (o.getD 0 0) (o.getD 1 0)⟩, ?_, rfl, ?_⟩
+  · simp [bdsmm, hs, hd]
+  · intro i c
+    exact _root_.LinOp.C20.spmm_def s.ents (fun j c => d.get [j, c]) i c n hents
+
+/-- `DSMM.backward`, unbatched: the gradient w.r.t. the dense operand is `Sᵀ · grad_output`
+(`bdsmm(sparse.mT, grad)` with the transposed entry list). -/
+theorem dsmm_backward_2d_def {α : Type} [CommRing α] (fixed : Bool) (s : Sp α) (g : Tn α) (m n p : Nat)
+    (hs : s.shape = [m, n]) (hg : g.shape = [m, p])
+    (hents : ∀ e ∈ s.ents, e.1.length = 2 ∧ e.1.getD 0 0 < m) :
+    ∃ t, dsmmBackward fixed s g = .ok t ∧ t.shape = [n, p] ∧
+      ∀ j c, t.get [j, c] = sumN m fun i => densify s.ents [i, j] * g.get [i, c] :=
+  _root_.LinOp.C20.dsmm_backward_2d_def fixed s g m n p hs hg hents
+
+
+/-- D32: `stable_qr` on a fat `R` (1 × 3, zero pivot, `eps = 1`): the unchanged code adds the jitter to the whole row;
+on a 2 × 3 `R` with a zero pivot it raises. -/
+theorem stable_qr_fat_counterexample :
+    (match stableQr (α := Int) false 1 1 3 (fun _ b => [0, 5, 7].getD b 0) with
+      | .ok R => [R 0 0, R 0 1, R 0 2] | .error _ => []) = [1, 6, 8] ∧
+    (match stableQr (α := Int) true 1 1 3 (fun _ b => [0, 5, 7].getD b 0) with
+      | .ok R => [R 0 0, R 0 1, R 0 2] | .error _ => []) = [1, 5, 7] ∧
+    isErr (stableQr (α := Int) false 1 2 3 (fun a b => if a = b then 0 else 4)) = true := by
+  decide
+
+/-- … and agrees with the repaired behaviour on tall / square `R` (`n2 = k`). -/
+theorem stable_qr_partial {α : Type} [Field α] [LinearOrder α] (eps : α) (k : Nat) (R : M α) :
+    stableQr false eps k k R = stableQr true eps k k R := by
+  simp [stableQr]
 
 end LinOp.C20.Property
